@@ -10,7 +10,8 @@ From CV Require Import Base.Prelude C38.Syntax C38.Parser C38.Guards C38.Str C38
 
 (* For EVERY expression of the modelled forms satisfying the guard [ok] — prefix minus is not left applied
    to a positive literal (the parser folds it), no cast is applied to a bare operand ending in an open move
-   `<-`, no postfix operator is applied to a negative literal — the parser reads the printed tokens back as
+   `<-`, no postfix operator is applied to a negative literal, no member access directly on an integer
+   literal (its text `5.x` is lexed as a malformed fixed-point literal) — the parser reads the printed tokens back as
    the same expression and consumes all of them, for all sufficiently large fuel (fuel is a device of the
    model: the real parser is not fuel-bounded). *)
 Theorem C38_print_parse_roundtrip_partial : forall e, ok e ->
